@@ -26,8 +26,16 @@ from .report import Check, load_known
 
 VERIF = Path(__file__).resolve().parent.parent
 # seeded changes whose defect is outside what the rules decide (DESIGN.md 8.5)
-UNDECIDED = {"r3-C15-3": "a rewrite of the recursive-descent parser into a loop: whether the new "
-                         "parser accepts the same language is not a structural fact"}
+UNDECIDED: Dict[str, str] = {}
+# seeded changes whose author demonstrated them through the property they were asked about, but
+# which leave that property's subject untouched and break another one: the check of the property
+# that is really broken must report them
+REASSIGNED = {
+    "r6-C18-2": ("C02", "deep_eq itself is unchanged: the loader decides the presence of an edge label by its "
+                        "content (ListFields), so a saved all-default label is lost on load (C02/C01)"),
+    "r6-C18-3": ("C02", "deep_eq itself is unchanged: the writer drops Symbol.at_end for symbols without a "
+                        "referent (C02/C01)"),
+}
 
 
 def patch_overlay(patch: Path) -> Optional[Dict[str, str]]:
@@ -84,12 +92,10 @@ def _one(args: Tuple[str, str, List[str]]) -> Tuple[str, str, Dict[str, Any]]:
         for p in props:
             res["errors"][p] = str(e)
         return kind, path, res
-    from .rules.wellformed import check as wf
+    from .runner import run_rules
     for p in props:
         try:
-            chk = Check(p, repo, "quick")
-            importlib.import_module("gtirb_static.rules.%s" % p.lower()).run(chk)
-            wf(chk)
+            chk = run_rules(p, repo, "quick")
             v = [x for x in chk.violations() if (p, x.rule, x.construct) not in known]
             res["reports"][p] = ["%s %s" % (x.rule, x.construct) for x in v][:4]
             if not v and chk.undecided():
@@ -112,6 +118,8 @@ def run_corpus(props: List[str], quiet: bool = True, jobs: int = 0) -> Dict[str,
             own = json.loads(meta.read_text()).get("breaks_property")
         except Exception:
             own = None
+        if d.parent.name in REASSIGNED:
+            own = REASSIGNED[d.parent.name][0]
         if own in props:
             work.append(("seeded", str(d), [own]))
     out: Dict[str, Any] = {"benign_applied": 0, "benign_silent": 0, "benign_skipped": 0,
